@@ -85,7 +85,7 @@ print_public_key(const public_key_t *pk)
 // compute the commitment with ideal to isogeny clapotis
 // and apply it to the basis of E0 (together with the multiplication by some scalar u)
 // the scalar adjusting_factor is a scalar through which the points of the basis are multiplied
-void
+int
 commit(ec_curve_t *E_com, ec_basis_t *basis_even_com, quat_left_ideal_t *lideal_com)
 {
 
@@ -100,9 +100,9 @@ commit(ec_curve_t *E_com, ec_basis_t *basis_even_com, quat_left_ideal_t *lideal_
 
     // ideal to isogeny clapotis
     found = dim2id2iso_arbitrary_isogeny_evaluation(basis_even_com, E_com, lideal_com);
-    assert(found);
 
     ibz_finalize(&n);
+    return found;
 }
 
 void
@@ -469,7 +469,11 @@ protocols_sign(signature_t *sig,
     }
 #endif
     // computing the commitment
-    commit(&E_com, &Bcom0, &lideal_commit);
+    if (!commit(&E_com, &Bcom0, &lideal_commit)) {
+        // the ideal to isogeny translation failed: E_com and Bcom0 are not set
+        ret = 0;
+        goto cleanup;
+    }
 #ifdef SQISIGN_SQISIGN2D_WEST_AC24_VERIF
     if (verif_env_int("SQI_VERIF_H1_REUSE_COMMIT", 0)) {
         if (!verif_com_cached)
@@ -591,7 +595,11 @@ verif_commit_done:;
 
 
     // now we evaluate this isogeny on the basis of E0
-    dim2id2iso_arbitrary_isogeny_evaluation(&Baux0, &E_aux, &lideal_aux_resp_com);
+    if (!dim2id2iso_arbitrary_isogeny_evaluation(&Baux0, &E_aux, &lideal_aux_resp_com)) {
+        // the ideal to isogeny translation failed: E_aux and Baux0 are not set
+        ret = 0;
+        goto cleanup;
+    }
 
     // notational conventions:
     // B0 = canonical basis of E0
